@@ -2514,6 +2514,8 @@ PPL::Polyhedron::positive_time_elapse_assign_impl(const Polyhedron& y) {
   swap(gen_sys, new_gs);
 
   gen_sys.set_sorted(false);
+  // The new system has no pending rows.
+  clear_pending_generators();
   clear_generators_minimized();
   // Generators are now up-to-date.
   set_generators_up_to_date();
